@@ -107,14 +107,22 @@ def gen_case(rng):
     chroms = ["chr1", "chr2"][: rng.choice([1, 1, 2])]
     files = [[] for _ in range(nfiles)]  # per file: list of records (chrom, pos, gt string, ps)
     identical = rng.random() < 0.08
+    multi = P == 2 and rng.random() < 0.35  # diploid files with multi-allelic heterozygous genotypes
+    alts = {}
     for c in chroms:
         n = rng.randint(2, 14 if P == 2 else 7)
         pos = sorted(rng.sample(range(10, 5000), n))
         truth = []
         for _ in range(n):
             if P == 2:
-                a = rng.randint(0, 1)
-                truth.append((a, 1 - a))
+                if multi and rng.random() < 0.3:
+                    # a tri-allelic site: heterozygous 1|2 or 0|2
+                    t = rng.choice([(1, 2), (2, 1), (0, 2), (2, 0)])
+                    truth.append(t)
+                    alts[(c, pos[len(truth) - 1])] = ["C", "G"]
+                else:
+                    a = rng.randint(0, 1)
+                    truth.append((a, 1 - a))
             else:
                 while True:
                     t = tuple(rng.randint(0, 1) for _ in range(P))
@@ -190,17 +198,17 @@ def gen_case(rng):
                 else:
                     recs.append((c, pos[i], "|".join(str(x) for x in al), b))
             files[f] += recs
-    return {"ploidy": P, "files": files, "chroms": chroms, "only_snvs": rng.random() < 0.1}
+    return {"ploidy": P, "files": files, "chroms": chroms, "only_snvs": rng.random() < 0.1, "alts": {"%s:%d" % k: v for k, v in alts.items()}}
 
 
-def write_file(records, path, sample="sampleX"):
+def write_file(records, path, sample="sampleX", alts=None):
     d = gvcf.Doc()
     d.samples = [sample]
     d.meta = ["##fileformat=VCFv4.2", "##contig=<ID=chr1,length=100000>", "##contig=<ID=chr2,length=100000>",
               '##FORMAT=<ID=GT,Number=1,Type=String,Description="Genotype">',
               '##FORMAT=<ID=PS,Number=1,Type=Integer,Description="Phase set">']
     for c, pos, gt, ps in records:
-        d.records.append({"chrom": c, "pos": pos, "id": ".", "ref": "A", "alts": ["C"], "qual": ".", "filter": ".", "info": ".",
+        d.records.append({"chrom": c, "pos": pos, "id": ".", "ref": "A", "alts": (alts or {}).get("%s:%d" % (c, pos), ["C"]), "qual": ".", "filter": ".", "info": ".",
                           "fmt": ["GT", "PS"], "calls": [{"GT": gt, "PS": str(ps) if ps is not None else "."}]})
     d.write(path)
 
@@ -300,7 +308,10 @@ def o_compare(case, pair):
             h0 = ["".join(per[0][p][0][h] for p in ps_) for h in range(P)]
             h1 = ["".join(per[1][p][0][h] for p in ps_) for h in range(P)]
             if P == 2:
-                r = o_block_diploid(h0[0], h1[0])
+                # orientation of the heterozygous genotype: 0 = the smaller allele is on the haplotype listed first
+                b0 = "".join("0" if int(per[0][p][0][0]) < int(per[0][p][0][1]) else "1" for p in ps_)
+                b1 = "".join("0" if int(per[1][p][0][0]) < int(per[1][p][0][1]) else "1" for p in ps_)
+                r = o_block_diploid(b0, b1)
                 tot["sf"][0] += r["sf"][0]
                 tot["sf"][1] += r["sf"][1]
                 tot["bed"] += r["switches"]
@@ -342,7 +353,7 @@ def o_multiway(case):
         for ps_ in inter.values():
             if len(ps_) < 2:
                 continue
-            encs = [sw_enc("".join(d[p][0][0] for p in ps_)) for d in per]
+            encs = [sw_enc("".join("0" if int(d[p][0][0]) < int(d[p][0][1]) else "1" for p in ps_)) for d in per]
             for i in range(len(ps_) - 1):
                 s = "".join(e[i] for e in encs)
                 s = min(s, comp(s))
@@ -385,7 +396,7 @@ def check_case(case, tmp, counters, rng):
     paths = []
     for k, recs in enumerate(case["files"]):
         p = os.path.join(tmp, "f%d.vcf" % k)
-        write_file(recs, p)
+        write_file(recs, p, alts=case.get("alts"))
         paths.append(p)
     try:
         rows, outs = run_compare_files(paths, P, tmp, "orig", case["only_snvs"])
@@ -508,7 +519,7 @@ def check_case(case, tmp, counters, rng):
         paths2 = []
         for k, recs in enumerate(case2["files"]):
             p = os.path.join(tmp, "g%d.vcf" % k)
-            write_file(recs, p)
+            write_file(recs, p, alts=case.get("alts"))
             paths2.append(p)
         try:
             rows2, _ = run_compare_files(paths2, P, tmp, "perm", case["only_snvs"], want_aux=False)
